@@ -297,3 +297,5 @@ v("C02,C03", J22, "            num_segments = int(message_size / self.DataLength
 v("C06,C02", J22, "                logger.info('bam receive buffer already in use 0x%x', buffer_hash )\n                del self._rcv_buffer[buffer_hash]\n                return", "                logger.info('bam receive buffer already in use 0x%x', buffer_hash )\n                return", "break", "old BAM session survives a new announcement (seeded C06D)")
 v("C04", CA, "                self._device_address_announced = self._device_address_preferred\n                if self._device_address_announced > 127",
   "                self._device_address_announced = self._device_address_preferred\n                self._send_address_claimed(self._device_address_announced)\n                if self._device_address_announced > 127", "break", "first claim sent while still in NONE (original defect D20)")
+v("C18", M, "                            self.state = DMState.WAIT_RESPONSE\n                            if self._proceed_function is not None:",
+  "                            self.state = DMState.WAIT_RESPONSE\n                            self._ca.unsubscribe(self._listen_for_dm14)\n                            if self._proceed_function is not None:", "break", "facade deaf after a refusal at the proceed callback (original defect D21)")
